@@ -1,5 +1,6 @@
 import ZwVerif.Model.Dwarf
 import ZwVerif.Model.Atval
+import ZwVerif.Model.Symbol
 import Driver.ZwDrv
 /-! Line protocol for the DWARF forest model.
     `F <tokens>` loads a forest:  U off version  D off tag hc nattr (name form ref|-)* nchild <children> …
@@ -112,5 +113,23 @@ def valueRecords (f : Forest) : List String :=
     d.attrs.zipIdx.map fun (a, i) =>
       let r := ZwVerif.Atval.atValue f d parent a
       s!"{d.off} {i} {showOut r.out}{if r.diag then "!" else ""}"
+
+/-- `SYM <machine> <info> <other> <info> <other> …`: one line per symbol
+    `<pos> <type> <type family> <type name> <bind> <bind family> <bind name> <vis> <vis name>` -/
+def symbolRecords (args : List String) : List String :=
+  match args with
+  | m :: rest =>
+    let machine := m.toNat?.getD 0
+    let rec pairs : List String → List (Nat × Nat)
+      | a :: b :: r => (a.toNat?.getD 0, b.toNat?.getD 0) :: pairs r
+      | _ => []
+    let syms : List ZwVerif.Symbol.Sym := (pairs rest).map fun (i, o) => ⟨[], 0, 0, i, o⟩
+    let all := ZwVerif.Symbol.symbols [syms]
+    (all.zip (ZwVerif.Symbol.positions [syms])).map fun (s, p) =>
+      let tf := ZwVerif.Symbol.sttFamily machine
+      let bf := ZwVerif.Symbol.stbFamily machine
+      let vn := match ZwVerif.Generated.stvNames.lookup s.vis with | some n => n | none => "???"
+      s!"{p} {s.type} {tf} {ZwVerif.Symbol.codeName ZwVerif.Generated.sttNames tf s.type} {s.bind} {bf} {ZwVerif.Symbol.codeName ZwVerif.Generated.stbNames bf s.bind} {s.vis} {vn}"
+  | [] => []
 
 end Driver
